@@ -16,6 +16,10 @@ unique along the dependency order, and a tree reached by such writes is determin
 (`Store.Reach.eq_of_agree`, the normal form of `XModel/StoreNF.lean`).  `C13_listing`: the listing has each
 triggered task once, exactly the downstream ones, producers first (C02).  Outside the theorems: `exec` of the
 printed source (C11's parser assumption); division by zero is excluded by the property.
+
+**Which tree.**  The model transcribes `/repo` as it stands now: the pinned commit plus the `fix:` commits recorded in
+`/verif/KNOWN_FINDINGS.json` (status `fixed`).  Where a theorem below rests on repaired code — `Manager.execGen` uses the repaired start set of `mk_fun` (owner chains of all arguments) and `gen_fun`'s namespace holds `math` — it is false of
+the tree as first pinned; the witnesses are kept (defects D25, D28).
 -/
 namespace Properties.C13
 open Store Push Index Manager
